@@ -421,6 +421,7 @@ pub fn run(ctx: &mut Ctx) -> Report {
 		}
 	}
 	cases.push(Opts { cert: "leaf".into(), ca: "authority".into(), dir_exists: false, ..base.clone() });
+	cases.push(Opts { san: vec!["a,b.example".into(), "10.0.0.1,10.0.0.2".into(), "trailing.example,".into(), "semi;colon.example".into(), "x y.example".into()], ..base.clone() });
 	// names as given: upper case, a trailing dot; and non-ASCII names whose code points end in a
 	// 7-bit octet (refused like any other non-ASCII name)
 	cases.push(Opts { san: vec!["UPPER.Example.COM".into(), "trailing.example.".into(), "Mixed.Case.example.".into()], server: true, ..base.clone() });
